@@ -82,3 +82,44 @@ let u_relex c =
   | _ -> Skip
 
 let () = register [ ("spacing", u_spacing); ("fmtdata", u_fmtdata); ("relex", u_relex) ]
+
+(* command spacinggrid: TokenSpacing on every vector of token TYPES the harness enumerated
+   (`SG <k> <a|-1> <b> <digits>`, see harness/src/units.rs), recomputed by the model *)
+let spacinggrid tier file =
+  let all = Array.map tt_of_name Gen_names.names_TokenType in
+  let n = Array.length all in
+  let combos = if tier = "thorough" then [ (0,0); (0,1); (0,2); (1,0); (1,1); (1,2); (2,0); (2,1); (2,2) ] else [ (0,0); (1,1); (2,0); (0,2) ] in
+  let mk ty ws = ({ t_ws = bytes_of_string (String.make ws ' '); t_content = bytes_of_string "x"; t_ty = ty },
+                  { f_ignored = false; f_nl = n_of_int 0; f_ind = n_of_int 0; f_cont = n_of_int 0; f_sp = n_of_int ws }) in
+  let comment_ty = tt_of_name "Comment(InlineBlock)" and eof = tt_of_name "Eof" in
+  let ic = open_in file in
+  let ok = ref 0 and bad = ref 0 in
+  (try while true do
+     let l = input_line ic in
+     match String.split_on_char ' ' l with
+     | [ "SG"; k; a; b; digits ] ->
+       let k = int_of_string k and a = int_of_string a and b = int_of_string b in
+       let pos = ref 0 in
+       for c = 0 to n - 1 do
+         List.iter (fun (o1, o2) ->
+           let pre = (if a >= 0 then [ mk all.(a) 0 ] else []) @ (if k = 1 then [ mk comment_ty 1 ] else []) in
+           let ib = List.length pre in
+           let v = pre @ [ mk all.(b) o1; mk all.(c) o2; ({ t_ws = []; t_content = []; t_ty = eof }, snd (mk eof 0)) ] in
+           let r = Array.of_list (token_spacing v) in
+           let sb = min 9 (int_of_n (snd r.(ib)).f_sp) and sc = min 9 (int_of_n (snd r.(ib + 1)).f_sp) in
+           let eb = Char.code digits.[!pos] - 48 and ec = Char.code digits.[!pos + 1] - 48 in
+           pos := !pos + 2;
+           if sb = eb && sc = ec then incr ok
+           else begin
+             incr bad;
+             if !bad <= 20 then
+               Printf.printf "SPACING DIFF k=%d prev=%s left=%s(%d sp) right=%s(%d sp): model %d,%d impl %d,%d\n" k
+                 (if a >= 0 then Gen_names.names_TokenType.(a) else "-") Gen_names.names_TokenType.(b) o1 Gen_names.names_TokenType.(c) o2 sb sc eb ec
+           end) combos
+       done
+     | _ -> ()
+   done with End_of_file -> ());
+  close_in ic;
+  Printf.printf "SPACING OK %d BAD %d\n" !ok !bad
+
+let () = commands := ("spacinggrid-quick", spacinggrid "quick") :: ("spacinggrid-thorough", spacinggrid "thorough") :: !commands
